@@ -3,9 +3,9 @@
   Property theorems only (helper lemmas live in Gts/Lemmas).
 -/
 import Gts.Lemmas.Push
-import Gts.Model.LocText
+import Gts.Lemmas.LocRoundTrip
 namespace Gts.C06
-open Gts Loc
+open Gts Loc Pars
 
 /-- FULL STATEMENT (false today, known finding K2):
       `∀ xs, wfList xs → den (join xs) ≼ denList xs`.
@@ -42,5 +42,127 @@ theorem join_wf (xs : List Loc) (hw : wfList xs = true) : wf (join xs) = true :=
 example : wfList [compl (ranged 6 9 false false), compl (ranged 3 6 false false), point 1, point 1] = true
     ∧ joinAbs [compl (ranged 6 9 false false), compl (ranged 3 6 false false), point 1, point 1] = false := by
   decide
+
+
+/-! ### print → parse round trip -/
+
+/-- The induction statement behind the round trip: `ParseLocation` (the recursive parser
+`LocParse.loc` with `f` units of recursion fuel), started on the printed form of a canonical
+location `l` followed by a delimiter-led continuation `rest` (end of input, `,` or `)`), with
+any backtracking stack `stk`, returns exactly `l`, consumes exactly the printed form and leaves
+the stack as it found it — for every nesting depth and arity, provided `f ≥ need l`. -/
+theorem parse_print_fuel (l : Loc) (h : canonP l = true) (f : Nat) (rest : Bytes) (stk : List Bytes)
+    (hf : need l ≤ f) (hd : Delim rest) :
+    LocParse.loc f ⟨printB l ++ rest, stk⟩ = (.ok l, ⟨rest, stk⟩) :=
+  loc_printB l h f rest stk hf hd
+
+/-- the fuel `AsLocation` starts with (`input.length + 2`) is always enough: every nesting level
+prints more bytes than it needs fuel -/
+theorem need_le_printed (l : Loc) : need l ≤ (printB l).length := need_le_length l
+
+/-- `AsLocation` on a printed canonical location followed by a delimiter-led rest: the location
+comes back and exactly `rest` is left unconsumed. -/
+theorem parse_print_rest (l : Loc) (h : canonP l = true) (rest : Bytes) (hd : Delim rest) :
+    parseLocation (printB l ++ rest) = .ok (l, rest) := by
+  have hf : need l ≤ (printB l ++ rest).length + 2 := by
+    have := need_le_length l
+    simp only [List.length_append]
+    omega
+  exact parseLocation_of_run _ _ _ (loc_printB l h _ rest [] hf hd)
+
+/-- **C06, first clause**: for every canonical location value — any nesting depth, any arity,
+every partial-marker combination — parsing its printed form gives back *the same value* with
+nothing left over. -/
+theorem parse_print (l : Loc) (h : canonP l = true) : parseLocation (printB l) = .ok (l, []) := by
+  have := parse_print_rest l h [] trivial
+  rwa [List.append_nil] at this
+
+/-- … in the property's wording: whatever `AsLocation` returns on the printed form prints
+identically, denotes the same ordered, stranded residues, and is the same value (so it carries
+the same partial markers); nothing is left unconsumed. -/
+theorem print_parse_print (l : Loc) (h : canonP l = true) (l' : Loc) (rest : Bytes)
+    (hp : parseLocation (printB l) = .ok (l', rest)) :
+    printB l' = printB l ∧ den l' = den l ∧ l' = l ∧ rest = [] := by
+  rw [parse_print l h] at hp
+  cases hp
+  exact ⟨rfl, rfl, rfl, rfl⟩
+
+/-- `AsLocation ∘ String` is idempotent on the printed form (print is a fixed point of
+parse-then-print for printed canonical values). -/
+theorem print_fixed_point (l : Loc) (h : canonP l = true) :
+    (parseLocation (printB l)).map (fun r => printB r.1) = .ok (printB l) := by
+  rw [parse_print l h]; rfl
+
+/-- The legacy spelling of the 3' partial marker, `a..b>` (marker *after* the end coordinate),
+reads as the same `Ranged` value as the printed spelling `a..>b`. -/
+theorem parse_legacy_marker (s e : Int) (p5 : Bool) (hs : coordOk s = true) (he : coordOk e = true) :
+    parseLocation (printB (ranged s e p5 false) ++ [62]) = .ok (ranged s e p5 true, []) ∧
+    parseLocation (printB (ranged s e p5 true)) = .ok (ranged s e p5 true, []) := by
+  refine ⟨?_, parse_print _ (by simp [canonP, hs, he])⟩
+  obtain ⟨a, rfl, ha⟩ := coordOk_nat hs
+  obtain ⟨b, rfl, hb⟩ := coordOk_nat he
+  apply parseLocation_of_run
+  rw [printB, dec_ofNat, dec_succ]
+  simp only [List.append_assoc, List.cons_append, List.nil_append, Bool.false_eq_true, ↓reduceIte]
+  have h := loc_ranged_legacy ((if p5 = true then [60] else []) ++
+      (natDigits (a + 1) ++ 46 :: 46 :: (natDigits b ++ [62]))).length.succ (a + 1) b p5 false [] []
+    (by omega) (by omega)
+  rw [show ((a + 1 : Nat) : Int) - 1 = (a : Int) by omega] at h
+  simp only [List.nil_append, Bool.false_eq_true, ↓reduceIte] at h
+  exact h
+
+/-- non-vacuity: a nested complement-strand join with partial markers, inside a join next to a
+range and an order of an ambiguous span and a between-site, is canonical … -/
+example : canonP (joined [compl (joined [ranged 0 3 true false, point 7]), ranged 10 20 false true,
+    ordered [ambiguous 30 40, between 50]]) = true := by decide
+
+/-- … its printed form is the expected INSDC text … -/
+example : printB (joined [compl (joined [ranged 0 3 true false, point 7]), ranged 10 20 false true,
+    ordered [ambiguous 30 40, between 50]]) =
+    str "join(complement(join(<1..3,8)),11..>20,order(31.40,50^51))" := by decide +kernel
+
+/-- … and a canonical value need not be reduced any further: `canonP` holds for what `Join`
+builds (here the merge of two abutting ranges and a duplicate point). -/
+example : canonP (join [ranged 0 3 true false, ranged 3 6 false false, point 9, point 9]) = true := by
+  decide
+
+/-- decidable check "the parse result is exactly `(l, [])`" (the nested type has no
+`DecidableEq`; `Loc.beq` is sound by `Loc.beq_eq`) -/
+def parsesTo (s : Pars.Bytes) (l : Loc) : Bool :=
+  match parseLocation s with
+  | .ok (l', r) => l'.beq l && r.isEmpty
+  | _ => false
+
+theorem parsesTo_sound (s : Pars.Bytes) (l : Loc) (h : parsesTo s l = true) :
+    parseLocation s = .ok (l, []) := by
+  unfold parsesTo at h
+  split at h
+  · rename_i l' r heq
+    simp only [Bool.and_eq_true, List.isEmpty_iff] at h
+    rw [heq, Loc.beq_eq l' l h.1, h.2]
+  · cases h
+
+/-- SECOND CLAUSE, FULL STATEMENT (false today, known finding K3): "for every string the parser
+accepts, printing the result is a fixed point of parse-then-print".  The parser builds joins
+with `Join`, and `Join` is not idempotent: the parts of `join(4,3^4,4)` reduce to
+`join(4,4)` (the between-site is replaced by the following point without re-checking the
+predecessor), whose parts reduce to `4`.  The string-level witness `join(4,3^4,4)` is replayed
+on the real parser and on the parser model on every run (known_findings.json, K3). -/
+theorem join_not_idempotent_refuted :
+    ¬ (∀ xs : List Loc, ∀ ys, join xs = joined ys → join ys = joined ys) := by
+  intro h
+  have h1 : join [point 3, between 3, point 3] = joined [point 3, point 3] :=
+    Loc.beq_eq _ _ (by decide)
+  have h2 := h _ _ h1
+  have h3 : join [point 3, point 3] = point 3 := Loc.beq_eq _ _ (by decide)
+  rw [h3] at h2
+  cases h2
+
+/-- second clause, proved part: whenever the accepted string parses to a canonical value (every
+result of the parser except the K3 shape, where a replacing push leaves a reducible pair
+behind), printing it is a fixed point of parse-then-print. -/
+theorem accepted_fixed_point_partial (s : Pars.Bytes) (l : Loc) (r : Pars.Bytes)
+    (_hp : parseLocation s = .ok (l, r)) (hc : canonP l = true) :
+    parseLocation (printB l) = .ok (l, []) := parse_print l hc
 
 end Gts.C06
